@@ -1,4 +1,5 @@
 import PcfgVerif.Properties.SessionCore
+import PcfgVerif.Generated.CliOptions
 import PcfgVerif.Model.Omen
 /-!
 # C15 — a Markov level interrupted mid-way resumes at the very next guess
@@ -121,5 +122,14 @@ theorem C15_session_files_injective (s1 s2 : List Char) (h : s1 ≠ s2) :
 
 example : omnName (savName "audit.ntlm".toList) = "audit.ntlm.omn".toList ∧
     omnName (savName "canvas".toList) = "canvas.omn".toList := by decide
+
+/-- the session name the file names are built from is the name the user typed: the only assignment to
+`program_info['session_name']` in `pcfg_guesser.py` is `args.session`, unchanged (regenerated from the source; with
+`C15_session_files_injective` two different `--session` values never share a `.sav` / `.omn` file) -/
+theorem C15_session_name_is_the_typed_name :
+    Generated.CliOptions.guesserAssign.filter (fun a => a.2.1 == "session_name") =
+      [("parse_command_line", "session_name", "args.session")] ∧
+    ("--session", "program_info['session_name']", "None", "'store'", "None", "None") ∈ Generated.CliOptions.guesserOptions := by
+  decide
 
 end Pcfg.C15
